@@ -21,7 +21,7 @@ func init() {
 			"R3 contradiction rule for optional values: a struct field that is compared with nil somewhere is only invoked/dereferenced under a dominating non-nil fact (or after a non-nil store); values obtained together with an error are not used on the error branch; " +
 			"R4 Init->Evaluate typestate for every registered action and operator: a field invoked or dereferenced by Evaluate is assigned on every successful path of Init / the factory, or tested for nil before use; " +
 			"R5 run-time limits reach slice bounds only range-checked (shared with C10.R2/R3); R6 (incl. indices counted down in a loop, which need a lower bound, and variables indexing fixed-size arrays, which need both bounds; validators returning an error contribute what they guarantee when they return nil) look-ahead and fixed-position reads in the configuration parser, macro expander, string helpers, actions and engine are dominated by a length fact (A9 shapes only); " +
-			"R7 Include recursion is bounded by a counter tested before recursing; R8 every non-constant size handed to an allocation primitive (make, Builder/Buffer.Grow, Repeat) is provably non-negative, and a make with both len and cap has len <= cap; R2 also covers assertions to interface types (every possible dynamic type implements the target); R3 also follows pointer fields that a composite literal leaves unset and nothing ever assigns (nil for the object's whole life) through accessors and interface wrapping to every dereference.",
+			"R7 Include recursion is bounded by a counter tested before recursing; R8 every non-constant size handed to an allocation primitive (make, Builder/Buffer.Grow, Repeat) is provably non-negative, and a make with both len and cap has len <= cap; R2 also covers assertions to interface types (every possible dynamic type implements the target); R3 also follows pointer fields that a composite literal leaves unset and nothing ever assigns (nil for the object's whole life) through accessors and interface wrapping to every dereference; R9 every store to Rule.DisruptiveStatus carries a status net/http's WriteHeader accepts (0 or 100..999, by constant or by dominating comparisons).",
 		NotDecided: []string{
 			"panics from arithmetic, map writes on nil maps, and index shapes outside x[c], x[v+c], x[len-c]",
 			"panics inside third-party libraries (regexp, aho-corasick, gjson, libinjection, xml)",
@@ -228,6 +228,40 @@ func runC07(c *an.Ctx) {
 
 	// ---- R8 sizes handed to allocation primitives.
 	c07Sizes(c)
+
+	// ---- R9 the status of a disruptive rule is one a connector can send.
+	c07Status(c)
+}
+
+// c07Status: net/http's WriteHeader panics ("invalid WriteHeader code") for a status outside
+// 100..999, and the http middleware hands the interruption's status to it unchanged.  The
+// status originates in Rule.DisruptiveStatus (read through Rule.Status by deny/drop/redirect):
+// every store to that field over the whole module must carry a constant in range (or 0, "no
+// status") or a value that dominating comparisons confine to 100..999.
+func c07Status(c *an.Ctx) {
+	stores := c.P.StoresToField(pkgWAF, "Rule", "DisruptiveStatus")
+	seen := map[string]int{}
+	for _, fs := range stores {
+		name := an.RelName(fs.Fn)
+		seen[name]++
+		key := "status stored by " + name + " is one net/http can send"
+		if seen[name] > 1 {
+			key += fmt.Sprintf("#%d", seen[name])
+		}
+		c.FuncsAnalysed[fs.Fn] = true
+		if k, ok := an.ConstInt(fs.Store.Val); ok {
+			c.Check(k == 0 || (k >= 100 && k <= 999), "R9", key, fs.Store.Pos(), fmt.Sprintf("constant %d", k), fmt.Sprintf("constant status %d is outside 100..999", k))
+			continue
+		}
+		f := an.FactsAt(fs.Store)
+		lo, hi, _ := f.Range(tempName.ReplaceAllString(an.Expr(fs.Store.Val), ""))
+		if lo >= 100 && hi <= 999 {
+			c.Ok("R9", key, fs.Store.Pos(), fmt.Sprintf("dominating comparisons confine the value to %d..%d", lo, hi), f.Strings()...)
+		} else {
+			c.Bad("R9", key, fs.Store.Pos(), "the status taken from the rule text ("+an.Expr(fs.Store.Val)+") is stored without being confined to 100..999: a rule such as \"deny,status:42\" compiles, and when it fires the http middleware passes 42 to ResponseWriter.WriteHeader, which panics", f.Strings()...)
+		}
+	}
+	c.MinCount("R9", "stores to Rule.DisruptiveStatus", len(stores), 1)
 }
 
 // c07SizeAllow: sizes whose non-negativity rests on a library contract rather than on the code's shape.
